@@ -9,6 +9,7 @@ import (
 	"sort"
 	"strings"
 	"sync"
+	"sync/atomic"
 	"testing"
 	"time"
 
@@ -58,6 +59,50 @@ type vReplica struct {
 	ds   datastore.Batching
 }
 
+// vFaultDS is the datastore under a replica's secret store and OrbitDB: reads for which FailGet answers true fail
+// with an I/O error (a transient outage of the storage; writes keep working).
+type vFaultDS struct {
+	datastore.Batching
+	failGet atomic.Pointer[func(key string) bool]
+}
+
+func (f *vFaultDS) failing(k datastore.Key) bool {
+	fn := f.failGet.Load()
+	return fn != nil && (*fn)(k.String())
+}
+
+func (f *vFaultDS) Get(ctx context.Context, k datastore.Key) ([]byte, error) {
+	if f.failing(k) {
+		return nil, fmt.Errorf("injected datastore read failure (i/o timeout)")
+	}
+	return f.Batching.Get(ctx, k)
+}
+
+func (f *vFaultDS) Has(ctx context.Context, k datastore.Key) (bool, error) {
+	if f.failing(k) {
+		return false, fmt.Errorf("injected datastore read failure (i/o timeout)")
+	}
+	return f.Batching.Has(ctx, k)
+}
+
+func (f *vFaultDS) GetSize(ctx context.Context, k datastore.Key) (int, error) {
+	if f.failing(k) {
+		return 0, fmt.Errorf("injected datastore read failure (i/o timeout)")
+	}
+	return f.Batching.GetSize(ctx, k)
+}
+
+// failReads makes the replica's storage fail the reads selected by fn (nil: the outage is over).
+func (r *vReplica) failReads(fn func(key string) bool) {
+	if f, ok := r.ds.(*vFaultDS); ok {
+		if fn == nil {
+			f.failGet.Store(nil)
+		} else {
+			f.failGet.Store(&fn)
+		}
+	}
+}
+
 // vNewReplica opens an OrbitDB on the shared node with its own datastore and
 // secret store. from != nil: a second device of the same account.
 func vNewReplica(t testing.TB, name string, from *vReplica) *vReplica {
@@ -66,7 +111,19 @@ func vNewReplica(t testing.TB, name string, from *vReplica) *vReplica {
 
 // vNewReplicaOpts: the same with secret store options (small key / reference windows)
 func vNewReplicaOpts(t testing.TB, name string, from *vReplica, ssOpts *secretstore.NewSecretStoreOptions) *vReplica {
-	ds := dssync.MutexWrap(datastore.NewMapDatastore())
+	return vNewReplicaOn(t, name, from, ssOpts, false)
+}
+
+// vNewFaultyReplica: a replica whose storage can be made to fail reads (failReads)
+func vNewFaultyReplica(t testing.TB, name string, from *vReplica) *vReplica {
+	return vNewReplicaOn(t, name, from, nil, true)
+}
+
+func vNewReplicaOn(t testing.TB, name string, from *vReplica, ssOpts *secretstore.NewSecretStoreOptions, faulty bool) *vReplica {
+	var ds datastore.Batching = dssync.MutexWrap(datastore.NewMapDatastore())
+	if faulty {
+		ds = &vFaultDS{Batching: ds}
+	}
 	if ssOpts != nil {
 		// NewSecretStore fills the defaults (among them the keystore) into the options it is given: never share them
 		ssOpts = &secretstore.NewSecretStoreOptions{PreComputedKeysCount: ssOpts.PreComputedKeysCount, PrecomputeOutOfStoreGroupRefsCount: ssOpts.PrecomputeOutOfStoreGroupRefsCount}
